@@ -147,7 +147,38 @@ Definition d_sequence (args : list val) (obs : val) : verdict :=
               else mkv (forallb v_corr vs) (forallb v_prop vs) "-"%string (VL (map v_model vs))
           | None => bad_case
           end
-      | None => mkv false false "-"%string VNil
+      | None => mkv false false "-"%string VNil          (* panic / timeout of the whole sequence *)
+      end
+  | _ => bad_case
+  end.
+
+(* RadixTree(keys, queries): the third-party library called directly — CreateTree(Create3DTable()), Append of every key (zoom, f', x, y),
+   then IsOverlap of every query. corr: the trie model of Radix.v gives the same answers (also for coordinates outside [0, 2^zoom), where the
+   library masks bits as the digit extraction does); prop (coordinates in range): the answers are the ancestor-or-equal relation on the three
+   coordinates (Overlap.tree_model_is_ref). *)
+Definition as_key4 (v : val) : option key4 :=
+  match as_LZ v with Some [z; f; x; y] => Some (z, f, x, y) | _ => None end.
+Definition as_keys (v : val) : option (list key4) :=
+  match as_L v with Some l => all_opt (map as_key4 l) | None => None end.
+Definition as_LB (v : val) : option (list bool) :=
+  match as_L v with Some l => all_opt (map as_B l) | None => None end.
+Definition key_small (q : key4) : bool := let '(z, _, _, _) := q in (0 <=? z) && (z <=? 62).
+Definition d_tree (args : list val) (obs : val) : verdict :=
+  match args with
+  | [ks; qs] =>
+      match as_keys ks, as_keys qs with
+      | Some K, Some Q =>
+          if negb (forallb key_small K && forallb key_small Q) || match K with [] => true | _ => false end then bad_case
+          else
+            let m := tree_model K Q in
+            match as_LB obs with
+            | Some o =>
+                mkv (list_eqb Bool.eqb m o)
+                    (if forallb in_range4b K && forallb in_range4b Q then list_eqb Bool.eqb (tree_ref K Q) o else true)
+                    "-"%string (VL (map VB m))
+            | None => match obs with VNil => bad_case | _ => mkv false false "-"%string (VL (map VB m)) end
+            end
+      | _, _ => bad_case
       end
   | _ => bad_case
   end.
@@ -159,7 +190,8 @@ Definition table_C05 : table :=
    ("CheckSpatialIdsArrayOverlap"%string, fun _ => d_sp_array);
    ("getSpatialIdAttrs"%string, fun _ => d_attrs);
    ("OverlapBoth"%string, fun _ => d_both);
-   ("OverlapSequence"%string, fun _ => d_sequence)].
+   ("OverlapSequence"%string, fun _ => d_sequence);
+   ("RadixTree"%string, fun _ => d_tree)].
 
 (* the dispatch checkers are the proved checker on the property's quantifier *)
 Lemma forallb_validb es : forallb validb es = true -> forall i, In i es -> valid i.
